@@ -59,10 +59,16 @@ def history(raw):
         i += 1; t, k = p[0], p[1]
         if k == 'call' and p[2] in OPS: open_[t] = (p[2], nid(p[3]), i)
         elif k == 'note' and p[2] == 'chain': chain[t] = ','.join(str(int(x) + 2) for x in (p[3] if len(p) > 3 else '').split(',') if x)
+        elif k == 'ret' and p[2] == 'walk':
+            # the content of the private queue belongs to the splice this thread performed just before
+            for j in range(len(out) - 1, -1, -1):
+                if out[j][0] == t and out[j][1] in ('splice', 'splicenb'):
+                    if out[j][3] != 'WB': out[j] = out[j][:3] + (chain.pop(t, ''),) + out[j][4:]
+                    break
         elif k == 'ret' and t in open_ and p[2] == open_[t][0]:
             op, arg, ci = open_.pop(t)
-            if op in ('splice', 'iter'): r = chain.pop(t, '')
-            elif op == 'splicenb': r = 'WB' if p[3] == '-1' else chain.pop(t, '')
+            if op == 'iter': r = chain.pop(t, '')
+            elif op in ('splice', 'splicenb'): r = 'WB' if p[3] == '-1' else ''
             else: r = nid(p[3])
             out.append((t, op, arg, r, ci, i))
     for t, (op, arg, ci) in open_.items(): out.append((t, op, arg, None, ci, None))
